@@ -21,7 +21,7 @@ pub fn gen_case(seed: u64, focus: &str) -> Value {
     let mut rng = Rng::new(seed);
     let mut g = rng.fork(1);
     let opts = GenOpts {
-        need_slots: matches!(focus, "C08" | "C16" | "C15" | "C11") || (focus == "C04" && g.chance(3, 4)) || (focus == "C05" && g.chance(1, 2)),
+        need_slots: matches!(focus, "C08" | "C16" | "C15" | "C11") || (focus == "C04" && g.chance(3, 4)) || (matches!(focus, "C05" | "C06" | "C01" | "C03") && g.chance(1, 2)),
         no_type_coupling: focus == "C14",
         max_segments: if focus == "C14" { 9 } else { 12 },
         risky: focus == "C06",
